@@ -267,6 +267,8 @@ class Lowerer:
         self.meta = {'functions': [], 'dropped': {'destructor_sites': 0}, 'asserts': [], 'loops': []}
         self.srcroot = srcroot
         self._names_taken = {}
+        self._td_stack = []
+        self.known_extern_types = set(['x___gmp_expr_mpq_t_mpq_t', 'x___gmp_expr_mpz_t_mpz_t', 'x_std_stack___gmp_expr_mpq_t_mpq_t', 'x_std_stack___mpq_struct_P_std_vector___mpq_struct_P', 'x_std_mutex', 'x_std_atomic_bool'])
         self._calls = {}; self.may_throw = set(); self._stmt_may_throw = False; self._opaque_fields = {}; self._fn_locals = {}
         self._assign_names()
 
@@ -351,13 +353,37 @@ class Lowerer:
                 u = e.get('fixedUnderlyingType', {}).get('qualType', 'int')
                 return self._ctype_s(u)
             if cand in self.tu.typedefs and self.tu.typedefs[cand]:
-                return self.ctype(self.tu.typedefs[cand])
+                td = self.tu.typedefs[cand]
+                tq = self._strip_cv(td.get('qualType', ''))
+                if re.search(r'\benum\b', td.get('qualType', '')) and tq.split('::')[-1] == cand.split('::')[-1]:
+                    return 't_uint'    # typedef enum { ... } Name;  -- an unnamed enum known by its typedef name
+                if tq not in (q, cand) and cand not in self._td_stack:
+                    self._td_stack.append(cand)
+                    try:
+                        return self.ctype(td)
+                    finally:
+                        self._td_stack.pop()
         if d and self._strip_cv(d) != q:
             return self._ctype_s(d, None)
         # nested-name in a record scope (e.g. FastRational::mpqPool spelled without namespace)
         for rq in self.tu.records:
             if rq.endswith('::' + q):
                 return self._record(rq)
+        if re.search(r'\((unnamed|anonymous) enum', q) or q.startswith('(unnamed enum') or re.search(r'\(unnamed at ', q):
+            return 't_uint'        # an enum without a name and without a fixed underlying type
+        for tq in self.tu.typedefs:
+            if tq.endswith('::' + q) and self.tu.typedefs[tq] and re.search(r'\benum\b', self.tu.typedefs[tq].get('qualType', '')) and self._strip_cv(self.tu.typedefs[tq]['qualType']).split('::')[-1] == q.split('::')[-1]:
+                return 't_uint'
+            if tq.endswith('::' + q) and self.tu.typedefs[tq] and tq not in self._td_stack:
+                self._td_stack.append(tq)
+                try:
+                    return self.ctype(self.tu.typedefs[tq])
+                finally:
+                    self._td_stack.pop()
+        for eq in self.tu.enums:
+            if eq.endswith('::' + q):
+                self.need_enums.add(eq)
+                return self._ctype_s(self.tu.enums[eq].get('fixedUnderlyingType', {}).get('qualType', 'int'))
         # external type (GMP, std::): the stub headers must define it
         ext = 'x_' + sanitize(q) if ('<' in q or '::' in q or ' ' in q) else q
         self.extern_types.add((ext, q))
@@ -1218,7 +1244,33 @@ class Lowerer:
         return 'return (%s)0;' % self._ret_c
 
     def s_CXXTryStmt(self, n, ind): raise Unsupported('try/catch at ' + self.where(n))
-    def s_CXXForRangeStmt(self, n, ind): raise Unsupported('range-for at ' + self.where(n))
+    def s_CXXForRangeStmt(self, n, ind):
+        # for (T x : range): clang's AST already spells out __range, __begin, __end, the condition, the increment and the
+        # loop variable; they are emitted as an ordinary for loop (iterator operations of library containers become stub calls)
+        parts = n['inner']
+        if len(parts) != 8: raise Unsupported('unexpected shape of a range-for at ' + self.where(n))
+        init, rng, beg, end, cond, inc, var, body = parts
+        k = self._loop_id(n)
+        self._check_continue(body, k)
+        out = ind + '{\n'
+        if init and init.get('kind'): out += self.stmt(init, ind + '  ')
+        for d in (rng, beg, end):
+            out += self.stmt(d, ind + '  ')
+        out += ind + '  for (; %s; %s)\n%s    OSMT_LOOP_%s_%d\n' % (self.expr(cond), self.expr(inc), ind, self._curname, k)
+        fn = self._curname
+        self._loopstack.append(k)
+        out += ind + '  {\n' + ind + '    OSMT_LOOPHEAD_%s_%d\n' % (fn, k)
+        out += self.stmt(var, ind + '    ')
+        if body.get('kind') == 'CompoundStmt':
+            for c in body.get('inner', []): out += self.stmt(c, ind + '    ')
+        else:
+            out += self.stmt(body, ind + '    ')
+        if any(l['fn'] == fn and l['ordinal'] == k and l.get('has_continue') for l in self.meta['loops']):
+            out += ind + '    __osmt_cont_%d: ;\n' % k
+        out += ind + '    OSMT_LOOPTAIL_%s_%d\n' % (fn, k) + ind + '  }\n'
+        self._loopstack.pop()
+        self._hooks.add('OSMT_LOOPHEAD_%s_%d' % (fn, k)); self._hooks.add('OSMT_LOOPTAIL_%s_%d' % (fn, k)); self._hooks.add('OSMT_LOOP_%s_%d' % (fn, k))
+        return out + ind + '}\n'
 
     # ---------------------------------------------------------------- functions
     def _want(self, i):
@@ -1376,10 +1428,15 @@ class Lowerer:
                         fq = self._rec_qname(c['type'])
                         emit(fq) if fq in self.tu.records else None
                     m = re.match(r'^(.*)\[(\d+)\]$', self._strip_cv(c['type']['qualType']))
+                    fname = c.get('name') or ('__anon_%s' % c.get('id', 'x')[-4:])
+                    if ct.startswith('x_') and ct not in self.known_extern_types:
+                        # a member of a library type nobody described: kept as an opaque placeholder (its address may be handed to stubs)
+                        fields += '  struct osmt_opaque_field %s;\n' % fname
+                        continue
                     if m:
-                        fields += '  %s %s[%s];\n' % (self._ctype_s(m.group(1)), c['name'], m.group(2))
+                        fields += '  %s %s[%s];\n' % (self._ctype_s(m.group(1)), fname, m.group(2))
                     else:
-                        fields += '  %s %s;\n' % (ct, c['name'])
+                        fields += '  %s %s;\n' % (ct, fname)
             out += 'struct %s {\n%s};\n' % (sname, fields or '  char __empty;\n')
         i = 0
         while i < len(self.need_records):
@@ -1414,6 +1471,15 @@ class Lowerer:
             if strs: self.meta.setdefault('string_tables', {})[name] = strs
             self.meta.setdefault('globals', []).append({'cname': name, 'qualified': self.tu.qname[i], 'storage': g.get('storageClass'), 'tls': g.get('tls'), 'type': g['type']['qualType'],
                                                         'line': g.get('loc', {}).get('_line'), 'file': g.get('loc', {}).get('_file')})
+            if init is not None and ct.startswith('struct ') and not ct.endswith('*'):
+                il = self.strip(init)
+                while il.get('kind') in ('CXXFunctionalCastExpr', 'CXXTemporaryObjectExpr', 'CXXConstructExpr', 'MaterializeTemporaryExpr', 'ImplicitCastExpr') and il.get('inner') and len(il['inner']) == 1:
+                    il = self.strip(il['inner'][0])
+                if il.get('kind') == 'InitListExpr' and all(not self.is_record_type(e['type']) for e in il.get('inner', [])):
+                    self._tmps = []; self._tmpn = 0; self._locals = {}; self._curname = name
+                    cq = 'const ' if re.search(r'\bconst\b', g['type']['qualType']) or g.get('constexpr') else ''
+                    gl += '%sstatic %s%s %s = { %s };\n' % (tls, cq, ct, name, ', '.join(self.expr(e) for e in il.get('inner', [])))
+                    continue
             if init is not None and ct.startswith('t_'):
                 self._tmps = []; self._tmpn = 0; self._locals = {}; self._curname = name
                 cq = 'const ' if re.search(r'\bconst\b', g['type']['qualType']) or g.get('constexpr') else ''
